@@ -93,6 +93,34 @@ theorem hide_last (args : List Val) (f : FExpr) (h : args ≠ []) :
 example : (callImpl (.un (.hide none) (.leaf 0 [.int, .int] none none))
     [.num .int 1, .num .int 2, .num .int 3]).log = [⟨0, [.num .int 1, .num .int 2]⟩] := by decide
 
+/-- **Bound arguments are handed on as they were bound.**  A bound argument whose type is spelled as a reference —
+    `bind<I, F, T&>(f, x)`, `bind<F, const T&>(f, x)` (bind.h: "the types of the arguments can optionally be specified") —
+    is the object `x` itself: a target parameter declared `const T&` at that position IS `x` (identity, no copy), for
+    every position, every arity and any other bound values around it; a bound *value* reaches the target as the value
+    that was bound (the adaptor stores a copy of it, nothing else). -/
+theorem bind_reference_identity (i : Nat) (bs args : List Val) (id : Nat) (ps : List Ty) (ret : Option Ty)
+    (h : i ≤ args.length) :
+    (callImpl (.un (.bind (some i) bs) (.pleaf id ps ret none)) args).log
+        = [⟨id, List.zipWith bindCRef ps (args.take i ++ bs ++ args.drop i)⟩]
+    ∧ (callImpl (.un (.bind none bs) (.pleaf id ps ret none)) args).log
+        = [⟨id, List.zipWith bindCRef ps (args ++ bs)⟩]
+    ∧ (∀ t c cell n, bindCRef t (.ref c t cell n) = .ref true t cell n) := by
+  refine ⟨?_, ?_, ?_⟩
+  · rw [bind_insert i bs args _ h]; rfl
+  · rw [bind_append]; rfl
+  · intro t c cell n; simp [bindCRef]
+
+-- bind<1, F, long&, const double&>(f, x, y)(1, 2) with f(const int&, const long&, const double&, const int&): the
+-- parameters 1 and 2 are the pool objects x (100) and y (101); bind(f, Json(7))(1) and bind_return(f, Json(7))():
+-- the JSON number 7 as it was bound
+example :
+    let f := FExpr.pleaf 0 [.int, .long, .dbl, .int] none none
+    (callImpl (.un (.bind (some 1) [.ref false .long 100 5, .ref true .dbl 101 25]) f) [.num .int 1, .num .int 2]).log
+        = [⟨0, [.num .int 1, .ref true .long 100 5, .ref true .dbl 101 25, .num .int 2]⟩]
+    ∧ (callImpl (.un (.bind none [.num .json 7]) (.leaf 1 [.int, .json] none none)) [.num .int 1]).log
+        = [⟨1, [.num .int 1, .num .json 7]⟩]
+    ∧ (callImpl (.un (.bindReturn (.num .json 7)) (.leaf 2 [] none none)) []).res = .ok (.num .json 7) := by decide
+
 /-- the code equals the documentation for every functor expression (adaptors nested to any depth) and all arguments -/
 theorem impl_eq_spec (e : FExpr) (args : List Val) (h : wellTyped e args.length = true) :
     callImpl e args = callSpec e args :=
